@@ -1,8 +1,44 @@
 //! C08 — concurrent shells lose nothing (Engine B, see sim::conc).
 use proptest::prelude::*;
+use serde::{Deserialize, Serialize};
 use sim::conc::{run_conc, ConcCase, Job};
+use sim::free::{run_free, FreeCase};
 use sim::gen::{universe, GenCfg};
+use sim::shell::HostKind;
 use vkit::{Mode, Outcome, Report, Stats};
+
+/// a replay file holds a case of either clause
+#[derive(Debug, Clone, Serialize, Deserialize)]
+#[serde(untagged)]
+enum AnyCase {
+    Free(FreeCase),
+    Conc(ConcCase),
+}
+
+/// second clause: free-running threads against a sequential twin (see sim::free)
+fn free_strategy() -> BoxedStrategy<FreeCase> {
+    let job = prop_oneof![
+        10 => any::<u16>().prop_map(Job::Resolve),
+        1 => (0u8..2).prop_map(Job::Start),
+        1 => Just(Job::Noop),
+        1 => Just(Job::View),
+    ];
+    let phases = prop::collection::vec(prop::collection::vec(prop::collection::vec(job, 1..4), 2..5), 1..7);
+    let base = GenCfg { abortable: false, task_aborts: false, select: false, chans: false, max_acts: 1, scale: false, ..GenCfg::standard() };
+    let legacy = GenCfg { select: false, chans: false, max_acts: 1, scale: false, ..GenCfg::legacy() };
+    let host = prop_oneof![3 => Just(HostKind::Core), 2 => Just(HostKind::Legacy), 2 => Just(HostKind::BridgeBincode), 2 => Just(HostKind::BridgeJson)];
+    (host, universe(base), universe(legacy), phases)
+        .prop_map(|(host, u, ul, phases)| {
+            let mut universe = if host == HostKind::Legacy { ul } else { u };
+            universe.acts.clear();
+            universe.follow = None;
+            FreeCase { universe, host, phases }
+        })
+        .boxed()
+}
+
+/// how often a saved free-running case is re-run (its interleavings are chosen by the machine)
+const FREE_REPLAYS: usize = 300;
 
 fn strategy() -> BoxedStrategy<ConcCase> {
     let job = prop_oneof![
@@ -51,9 +87,40 @@ pub fn main(mode: Mode) {
         }
         Ok(())
     };
+    let check_free = |c: &FreeCase| -> Result<(), String> {
+        let info = run_free(c)?;
+        let nt = info.concurrent_resolutions;
+        let mut labels = vec![match c.host {
+            HostKind::Core => "free:host=core",
+            HostKind::Legacy => "free:host=legacy-capability-api",
+            HostKind::BridgeBincode => "free:host=bincode-bridge",
+            HostKind::BridgeJson => "free:host=json-bridge",
+            _ => "free:host=other",
+        }];
+        if info.concurrent_resolutions {
+            labels.push("free:>=2-threads-resolving-at-once");
+        }
+        if info.max_threads >= 3 {
+            labels.push("free:>=3-threads");
+        }
+        if info.stream_items > 0 {
+            labels.push("free:stream-items-delivered");
+        }
+        if info.events >= 4 {
+            labels.push("free:>=4-events-applied");
+        }
+        stats.case(c, nt, &labels);
+        Ok(())
+    };
+    let replay_any = |v: serde_json::Value| -> Result<(), String> {
+        match serde_json::from_value::<AnyCase>(v).map_err(|e| e.to_string())? {
+            AnyCase::Conc(c) => check(&c),
+            AnyCase::Free(c) => (0..FREE_REPLAYS).try_for_each(|_| check_free(&c)),
+        }
+    };
     match mode {
         Mode::Replay(path) => {
-            let res = vkit::read_replay(&path).and_then(|v| serde_json::from_value::<ConcCase>(v).map_err(|e| e.to_string())).and_then(|c| check(&c));
+            let res = vkit::read_replay(&path).and_then(replay_any);
             vkit::finish_replay(prop, &path, res)
         }
         Mode::Run(tier) => {
@@ -62,7 +129,7 @@ pub fn main(mode: Mode) {
             let mut replayed = 0;
             for f in vkit::replay_files(prop) {
                 replayed += 1;
-                if let Err(why) = vkit::read_replay(&f).and_then(|v| serde_json::from_value::<ConcCase>(v).map_err(|e| e.to_string())).and_then(|c| check(&c)) {
+                if let Err(why) = vkit::read_replay(&f).and_then(replay_any) {
                     println!("why: {why}");
                     println!("VIOLATION property={prop} replay={}", f.display());
                     std::process::exit(1);
@@ -72,17 +139,20 @@ pub fn main(mode: Mode) {
             let outcome = vkit::run_prop(prop, vkit::workers_for(tier), tier.pick(500, 40_000), strategy, check);
             let outcome = match outcome {
                 Outcome::Held if stats.distinct_nontrivial() < 2 => Outcome::Inconclusive("generator produced no non-trivial case".into()),
+                // second clause: few workers, so that the threads of a case really run at the same time
+                Outcome::Held => vkit::run_prop("C08-free", 5, tier.pick(2_400, 160_000), free_strategy, check_free),
                 o => o,
             };
             vkit::finish(
                 Report {
                     prop,
                     tier,
-                    rule: "universes (command API, depth <= 3, no aborts) x 1-6 phases of 2-3 concurrent shell calls on one Core (resolutions of distinct live requests, shell events, view reads), each call on its own thread, under a harness-owned schedule: crux_core's verif points park every thread, a generated run-length-encoded choice list (<= 80 entries, then round-robin) releases one at a time; in 30 % of the cases workers are also parked inside the app's view / update, i.e. while holding the model lock (a worker that then blocks on that lock is detected by its silence and the holder is let go); the totally ordered witness trace of each phase is replayed on the reference runtime and the per-phase obligations are checked (nothing runnable, nothing discarded while alive, every effect returned by exactly one call, view = applied events, concurrent view reads are prefixes, quiescent afterwards); non-trivial = a worker was held between a command task's poll and its eviction decision while another worker passed a waker step, or held at an executor point while another worker ran the executor, or held inside view / update while another worker ran; distinct = distinct case",
+                    rule: "universes (command API, depth <= 3, no aborts) x 1-6 phases of 2-3 concurrent shell calls on one Core (resolutions of distinct live requests, shell events, view reads), each call on its own thread, under a harness-owned schedule: crux_core's verif points park every thread, a generated run-length-encoded choice list (<= 80 entries, then round-robin) releases one at a time; in 30 % of the cases workers are also parked inside the app's view / update, i.e. while holding the model lock (a worker that then blocks on that lock is detected by its silence and the holder is let go); the totally ordered witness trace of each phase is replayed on the reference runtime and the per-phase obligations are checked (nothing runnable, nothing discarded while alive, every effect returned by exactly one call, view = applied events, concurrent view reads are prefixes, quiescent afterwards); SECOND CLAUSE (free-running): order-independent universes (no select, cancellation, channel receive or follow-up program) on the typed Core, the legacy capability API, the bincode bridge and the JSON bridge; 1-6 phases in which 2-4 OS threads, released together by a barrier, each make 1-3 calls back to back (resolutions of distinct outstanding requests, one program start, no-ops, view reads) with no schedule control; every phase is compared with a sequential twin (a second instance of the host given the same calls one after the other): same multiset of effects, same resolution results, same events applied; plus model-free invariants (each effect returned once, delivery exact and in order, events once and per emitter in order, update not re-entered, view = update log, ids of outstanding requests distinct, quiescent afterwards); non-trivial there = >= 2 threads resolving at once. FIRST CLAUSE: non-trivial = a worker was held between a command task's poll and its eviction decision while another worker passed a waker step, or held at an executor point while another worker ran the executor, or held inside view / update while another worker ran; distinct = distinct case",
                     assumptions: vec![
                         "schedule points in crux are outside every crux lock; a traced task poll is one atomic schedule step; the points inside the test app's view / update are reached while the model lock is held, and a 15 ms silence of the released worker is read as 'blocked on that lock' (this affects only which schedules are explored, never a verdict)".into(),
                         "memory-ordering effects below the granularity of the schedule points are not explored".into(),
-                        "typed Core API only (the bridge holds its registry lock across a wake)".into(),
+                        "owned schedules: typed Core API only (the bridge holds its registry lock across a wake); the bridges and the legacy API are reached by the free-running clause".into(),
+                        "free-running clause: which interleavings occur is up to the machine and is not reproducible; a verdict never depends on it (any divergence from the sequential twin is a violation), only the chance of meeting a defect does; a saved case is re-run 300 times on replay".into(),
                     ],
                     started,
                     replayed,
